@@ -4,6 +4,7 @@ CONSTANTS
   Seeds <- MCSeeds
   Blocks <- MCBlocks
   Firsts <- MCFirsts
+  AltExtFirsts <- MCAltFirsts
   ClearVol = TRUE
   Emit = TRUE
 INVARIANTS
